@@ -547,7 +547,7 @@ def eval_formula(f: Formula, basevals: Dict[Term, object], boolvals: Dict[Formul
 
 
 class TooManyRegions(Exception):
-    pass
+    """The guards to compare induce more order regions than the cap: the comparison is inconclusive (exit 2)."""
 
 
 def compare(f: Formula, g: Formula, assume: Formula = FTrue, domain: str = 'int', cap: int = 400000):
@@ -812,7 +812,14 @@ def subst_formula(f, mapping):
             return AEq(a, b)
         return mk_cmp(a, '==', b)
     if isinstance(f, ATruthy):
-        return ATruthy(subst_term(f.t, mapping))
+        t = subst_term(f.t, mapping)
+        if isinstance(t, Const):
+            return FConst(bool(t.value))
+        if isinstance(t, Num):
+            return FConst(t.value != 0)
+        if isinstance(t, BoolT):
+            return t.f
+        return ATruthy(t)
     if isinstance(f, ADiv):
         e, _ = sign_normalise(subst_term(f.e, mapping))
         m = subst_term(f.mod, mapping)
